@@ -287,9 +287,22 @@ Section Values.
   Definition char_ok (b : N) : bool := (0 <? b)%N && (b <? 256)%N.
   Definition scalar (a : value) : bool :=
     match a with VSeq _ _ | VMap _ _ => false | _ => true end.
-  (* keys admitted in maps by the theorems: eq on them is Leibniz equality *)
-  Definition key_ok (a : value) : bool :=
-    match a with VInt _ | VStr _ => true | _ => false end.
+  (* keys admitted in maps by the model: anything that is not a container *)
+  Definition key_ok (a : value) : bool := scalar a.
+
+  (* the keys of one map have one type (ktype of the Table / Tree) *)
+  Definition kclass (a : value) : nat * nat :=
+    match a with
+    | VInt _ => (0, 0) | VFloat _ => (1, 0) | VStr _ => (2, 0) | VType _ => (3, 0)
+    | VRef _ => (4, 0) | VBox _ => (5, 0) | VBlob bs => (6, length bs)
+    | VSeq _ _ => (7, 0) | VMap _ _ => (8, 0)
+    end.
+  Definition class_eqb (c d : nat * nat) : bool := (fst c =? fst d) && (snd c =? snd d).
+  Definition same_class (mp : list (value * value)) : bool :=
+    match mp with
+    | [] => true
+    | (k0, _) :: _ => forallb (fun kv => class_eqb (kclass k0) (kclass (fst kv))) mp
+    end.
 
   Fixpoint keys_distinct (mp : list (value * value)) : bool :=
     match mp with
@@ -307,6 +320,7 @@ Section Values.
     | VBox p => (p <? M64)%N
     | VBlob bs => forallb byte_ok bs
     | VSeq _ l => forallb (fun x => v_wf x) l
-    | VMap _ mp => forallb (fun kv => key_ok (fst kv) && v_wf (fst kv) && v_wf (snd kv)) mp && keys_distinct mp
+    | VMap _ mp => forallb (fun kv => key_ok (fst kv) && v_wf (fst kv) && v_wf (snd kv)) mp
+                   && same_class mp && keys_distinct mp
     end.
 End Values.
